@@ -1158,6 +1158,8 @@ namespace awkward {
           reinterpret_cast<uint8_t*>(data()),
           bytelength());
         util::handle_error(err, classname(), identities_.get());
+        // the copy starts at data(), so it has no offset of its own
+        byteoffset = 0;
       }
     }
     IdentitiesPtr identities = identities_;
